@@ -95,6 +95,10 @@ func checkMatches(ms Matches, normUnknown string, threshold float64) string {
 	return ""
 }
 
+// letters whose UTF-8 encoding ends in a byte that is a blank or a punctuation mark in Latin-1
+// (0x85, 0xA0, 0xA1, 0xAB, 0xB6, 0xB7, 0xBB, 0xBF), others that do not, and two such bytes alone
+var c13GlueLetters = []string{"\u00e0", "\u00f6", "\u0436", "\u00c5", "\u65e0", "\u00e9", "\u65e5", "\u00ab", "\xa0", "\x85"}
+
 func c13Occurrence(c *vrep.Ctx) {
 	if !instrumented() {
 		panic("c13 needs the v1 instrumentation profile (library goroutines must be modelled threads)")
@@ -232,7 +236,21 @@ func c13Occurrence(c *vrep.Ctx) {
 				r.Note = map[string]interface{}{"skip": true}
 				return
 			}
-			unknown = strings.Join(pre.toks, nm.sep) + strings.Join(k1.toks, nm.sep) + strings.Join(post.toks, nm.sep)
+			// for short values: the character the copy is glued to (in front and behind) may also be a
+			// letter of two or three bytes, or a stray byte of Latin-1 (what a byte-wise look at the
+			// neighbour would take for a blank or a punctuation mark)
+			preT, postT := append([]string(nil), pre.toks...), append([]string(nil), post.toks...)
+			if len(k1.toks) <= 2 {
+				if g := r.Choose(len(c13GlueLetters)+1, "glue letter"); g > 0 {
+					if len(preT) > 0 {
+						preT[len(preT)-1] = c13GlueLetters[g-1]
+					}
+					if len(postT) > 0 {
+						postT[0] = c13GlueLetters[g-1]
+					}
+				}
+			}
+			unknown = strings.Join(preT, nm.sep) + strings.Join(k1.toks, nm.sep) + strings.Join(postT, nm.sep)
 		}
 		cl := New(ts[ti], nm.fn...)
 		id := fmt.Sprintf("values{%q", lead+k1.text()+trail)
